@@ -96,6 +96,10 @@ type World10 struct {
 	base  sdk.Context
 }
 
+// what the victim allows each possible caller to move: different per caller, so that acting on the wrong
+// identity (tx origin, another contract) shows in the accounting
+var victimAllowance = map[int]int64{aU0: 40, aKC: 25, aKB: 15, aKD: 12, aKCC: 9, aKS: 6}
+
 func e18(n int64) *big.Int { return new(big.Int).Mul(big.NewInt(n), big.NewInt(1e18)) }
 
 func forwarder(kind lib.CallKind, target common.Address) []byte {
@@ -154,7 +158,7 @@ func NewWorld10(seed int64) *World10 {
 	// allowances granted by the victim and by the bystander
 	sk := c.App.StakingKeeper
 	for _, sp := range []int{aU0, aKC, aKB, aKD, aKCC, aKS} {
-		sk.SetAllowance(c.Ctx, w.vals[0], w.addrs[aU1].Bytes(), w.addrs[sp].Bytes(), e18(40))
+		sk.SetAllowance(c.Ctx, w.vals[0], w.addrs[aU1].Bytes(), w.addrs[sp].Bytes(), e18(victimAllowance[sp]))
 	}
 	sk.SetAllowance(c.Ctx, w.vals[0], w.addrs[aU2].Bytes(), w.addrs[aU0].Bytes(), e18(7)) // owner without delegation
 	sk.SetAllowance(c.Ctx, w.vals[0], w.addrs[aU0].Bytes(), w.addrs[aU1].Bytes(), e18(3))
@@ -430,7 +434,7 @@ func (w *World10) calls(caller int) []Call10 {
 		val, from, to int
 		sh   *big.Int
 	}{
-		{0, aU1, caller, e18(1)}, {0, aU1, aU2, e18(40)}, {0, aU1, caller, new(big.Int).Add(e18(40), big.NewInt(1))},
+		{0, aU1, caller, e18(1)}, {0, aU1, aU2, e18(victimAllowance[caller])}, {0, aU1, caller, new(big.Int).Add(e18(victimAllowance[caller]), big.NewInt(1))},
 		{0, aU1, aU1, e18(2)}, {0, aU2, caller, e18(1)}, {1, aU1, caller, e18(1)}, {0, caller, aU2, e18(1)},
 		{0, aU1, caller, e18(101)},
 	} {
@@ -528,6 +532,8 @@ func switches(r *lib.Rand) []switchSetting {
 }
 
 // ---- one run ----
+
+var known10 = map[string]int{}
 
 type case10 struct {
 	Shape  string `json:"shape"`
@@ -645,6 +651,15 @@ func (w *World10) one(rep *lib.Report, r *lib.Rand, sh shape, caller int, kind s
 	rp := case10{Shape: shapeNames[sh], Switch: sw.name + " " + strings.Join(entries, ","), Call: call}
 	fail := func(what, sig, detail string) {
 		rp.Detail = detail
+		for _, k := range []string{"C10:static-context-write", "C10:delegationRewards-unjournaled"} {
+			if strings.HasPrefix(sig, k) {
+				rep.Count("known_finding_occurrences:" + k)
+				known10[k]++
+				if known10[k] > 6 {
+					return // the report keeps 50 failures: do not let a known finding crowd out anything else
+				}
+			}
+		}
 		rep.Fail(lib.Failure{Kind: "monitor", What: what, Sig: sig, Replay: rp})
 	}
 	// did the precompile frame itself succeed? (the forwarders revert when it fails, so: tx status; cross-check with the trace)
